@@ -2,7 +2,7 @@
    coder, in the vocabulary of Proofs/CliDefs.v (cli_run, cli_tr, cli_log, results_for, ...). *)
 From H2V Require Import Base.Bytes Base.MachineInt Base.Result Gen.GenConsts Impl.Hpack Impl.ServerConn Impl.ServerInst
      Impl.ClientConn Impl.ClientInst Proofs.HpackTotal Proofs.CliBase Proofs.CliDefs
-     Proofs.CliResInv Proofs.CliResStep Proofs.CliResMoves Proofs.CliResThms Proofs.CliResGoAway.
+     Proofs.CliResInv Proofs.CliResStep Proofs.CliResMoves Proofs.CliResThms Proofs.CliResGoAway Proofs.CliResNil Proofs.CliResComplete.
 From Coq Require Import ZArith Lia ZifyN ZifyNat ZifyBool List Bool.
 Import ListNotations.
 Local Open Scope N_scope.
@@ -243,4 +243,72 @@ Proof.
   unfold cst_sid, cst_ctx. unfold cl_ctx_get in G. unfold cli_run. rewrite G.
   destruct D as [D|[-> GA]]; [left | right; split; [reflexivity | exact GA]].
   rewrite header_ids_filter, cli_tr_eq, hdr_sids_rev. intro J. apply in_rev in J. exact (D J).
+Qed.
+
+
+(* ---------- C12 (b) ---------- *)
+Lemma i_nil_complete cfg first evs tag retry resp :
+  In (tag, retry, CENil, resp) (results_of (cli_tr cfg first evs)) ->
+  exists x, cst_ctx (cli_run cfg first evs) tag = Some x /\ ct_sid x <> 0 /\
+    exists pre fr post, evs = pre ++ CEvRL (RFrame fr) :: post /\ sf_sid fr = ct_sid x /\
+      cl_rl_live (cli_run cfg first pre) = true /\ cc_netClosed (cli_run cfg first pre) = false /\
+      es_seen (cli_run cfg first pre) fr /\
+      exists t0 x0, In (ct_sid x, t0) (cc_reqQueued (cli_run cfg first pre)) /\ cst_ctx (cli_run cfg first pre) t0 = Some x0 /\
+                    ct_done x0 = false /\ status_seen cli_dec_field (cli_run cfg first pre) fr x0.
+Proof.
+  intro H. apply results_of_In in H. rewrite cli_tr_eq in H. apply in_rev in H.
+  apply (nil_complete cli_dec_field cli_enc_field set_max_table_size cfg cli_init_hpack first evs tag retry resp H).
+Qed.
+
+
+(* ---------- C12 (d) ---------- *)
+Lemma i_finished_not_held cfg first evs t x : cst_ctx (cli_run cfg first evs) t = Some x -> ct_finished x = true ->
+  cst_refers (cli_run cfg first evs) t = false.
+Proof.
+  intros G F. destruct (finished_not_held cli_dec_field cli_enc_field set_max_table_size cfg cli_init_hpack first evs t x G F) as (N1 & N2 & N3).
+  unfold cst_refers. apply orb_false_iff. split; [apply orb_false_iff; split|].
+  - destruct (existsb _ (cc_reqQueued _)) eqn:E; [|reflexivity]. exfalso. apply existsb_exists in E. destruct E as ([i u] & J & Hu). cbn in Hu.
+    apply N.eqb_eq in Hu. subst u. apply N2. apply in_map_iff. exists (i, t). auto.
+  - destruct (existsb _ (cc_pending _)) eqn:E; [|reflexivity]. exfalso. apply existsb_exists in E. destruct E as (pb & J & Hu).
+    apply N.eqb_eq in Hu. apply N3. apply in_map_iff. exists pb. auto.
+  - destruct (existsb _ (cc_inQ _)) eqn:E; [|reflexivity]. exfalso. apply existsb_exists in E. destruct E as (u & J & Hu).
+    apply N.eqb_eq in Hu. subst u. exact (N1 J).
+Qed.
+
+Lemma i_pool_put_safe cfg first evs e tag :
+  In e (cli_log cfg first evs) -> In (COPoolPut tag) (le_items e) ->
+  le_ev e = CEvReceive tag /\ cst_refers (le_after e) tag = false /\
+  exists x, cst_ctx (le_before e) tag = Some x /\ ct_finished x = true /\ (ct_armed x = true -> ct_fired x = false) /\
+            cst_ctx (le_after e) tag = Some (recv_ctx x) /\ ct_pooled (recv_ctx x) = true /\
+            ct_armed (recv_ctx x) = false /\ ct_done (recv_ctx x) = true /\ ct_resolved (recv_ctx x) = true.
+Proof.
+  intros He Hin. destruct (cli_log_In cfg first evs e He) as (pre & post & Hev & B & A & I).
+  set (c := le_before e) in *.
+  assert (R : cl_reachable cli_dec_field cli_enc_field set_max_table_size cfg cli_init_hpack first c) by (rewrite B; apply cl_run_reachable).
+  destruct (ss_out _ _ _ _ (sum_any cli_dec_field cli_enc_field set_max_table_size cfg c (le_ev e) (inv_reach _ _ _ _ _ _ c R))) as (l & Hl & _).
+  rewrite I, A, (cli_new_app c _ l Hl) in Hin. apply in_rev in Hin.
+  destruct (pool_put_safe _ _ _ _ _ _ c (le_ev e) l tag R Hl Hin) as (Ee & x & G & Fi & Tm & N1 & N2 & N3 & Q1 & Q2 & Q3 & G' & Rest).
+  split; [exact Ee|]. split.
+  - (* the state after is a run: the Ctx there is finished too *)
+    assert (RA : le_after e = cli_run cfg first (pre ++ [le_ev e])) by (rewrite A; unfold cli_run; rewrite cl_run_snoc, <- B; reflexivity).
+    rewrite RA. apply (i_finished_not_held cfg first (pre ++ [le_ev e]) tag (recv_ctx x)); [rewrite <- RA, A; exact G'|].
+    cbn. exact Fi.
+  - exists x. rewrite A. auto 10.
+Qed.
+
+(* ---------- C11 (b): requests at or below last-stream-id complete ---------- *)
+(* the decoder of the instance reads the byte 0x88 as (":status", "200") whatever its state (static table, index 8) *)
+Lemma cli_dec_200 d n : exists d', cli_dec_field d n [136] = DField hpack_state S_status [50; 48; 48] [] d'.
+Proof. exists d. vm_compute. reflexivity. Qed.
+
+Lemma i_completes cfg first evs id tag x : let c := cli_run cfg first evs in
+  cl_rl_live c = true -> cc_netClosed c = false -> cc_hdrStream c = 0 ->
+  In (id, tag) (cc_reqQueued c) -> cst_ctx c tag = Some x -> ct_done x = false -> ct_err x = None -> ct_gotStatus x = false ->
+  let c1 := cli_step cfg c (CEvRL (RFrame (hdr200 id))) in
+  exists x1, cst_ctx c1 tag = Some x1 /\ ct_err x1 = Some CENil /\ ct_finished x1 = true /\ ct_gotStatus x1 = true /\
+             cr_status (ct_resp x1) = 200%Z /\ ~ In (id, tag) (cc_reqQueued c1) /\
+             exists l, cc_out (cli_step cfg c1 (CEvReceive tag)) = l ++ cc_out c1 /\ In (COResult tag false CENil (ct_resp x1)) l.
+Proof.
+  cbv zeta. intros RL NC HS I G Dn En GS.
+  apply (completes cli_dec_field cli_enc_field set_max_table_size cfg cli_init_hpack first cli_dec_200 _ id tag x (i_reach cfg first evs) RL NC HS I G Dn En GS).
 Qed.
